@@ -339,6 +339,42 @@ class Recon:
             if a == b:
                 return a
             return ("ite", test, a, b)
+        # second shape: some definitions sit before an `if` and the others inside it (`x = a` / `if c: x = b`):
+        # the value is ite(c, <what the arm leaves>, <what was there before>)
+        chains = [arms(st) for st, _ in items]
+        cands = {}
+        for ch in chains:
+            for i, _side in ch:
+                cands[id(i)] = i
+        for ifnode in sorted(cands.values(), key=lambda n: (n.lineno, n.col_offset)):
+            sides = []
+            for ch in chains:
+                sd = [side for i, side in ch if i is ifnode]
+                sides.append(sd[0] if sd else None)
+            if all(x is not None for x in sides) or all(x is None for x in sides):
+                continue
+            outside = [it for it, sd in zip(items, sides) if sd is None]
+            if any(getattr(it[0], "lineno", 0) >= ifnode.lineno for it in outside):
+                return None
+
+            def arm(arm_items, arm_stmts):
+                if not arm_items:
+                    return self._gate(ctx, outside, func, value_of, binds, depth + 1)
+                direct = [it for it in arm_items if any(it[0] is s_ for s_ in arm_stmts)]
+                if direct:
+                    last = max(direct, key=lambda it: it[0].lineno)
+                    rest = [it for it in arm_items if it[0].lineno >= last[0].lineno]
+                    return self._gate(ctx, rest, func, value_of, binds, depth + 1)
+                return self._gate(ctx, outside + arm_items, func, value_of, binds, depth + 1)
+
+            a = arm([it for it, sd in zip(items, sides) if sd is True], ifnode.body)
+            b = arm([it for it, sd in zip(items, sides) if sd is False], ifnode.orelse)
+            if a is None or b is None:
+                return None
+            test = self._e(ctx, ifnode.test, ctx.cfg.node_of.get(ifnode), binds, False, depth + 1)
+            if a == b:
+                return a
+            return ("ite", test, a, b)
         return None
 
     def _def(self, ctx: FuncCtx, d: Def, binds, depth):
@@ -841,7 +877,7 @@ class Recon:
                 isinstance(n, (ast.Yield, ast.YieldFrom)) for n in _own_nodes(fdef)):
             # not inlined, but if every return value is a struct instance, keep that type information
             r = self.inline(fdef, args, kws, depth + 1)
-            alts = r[1] if r[0] == "join" else (r,)
+            alts = tuple(S.alternatives(r))
             if alts and all(a[0] == "inst" for a in alts) and len({a[1] for a in alts}) == 1:
                 # the instance is identified by the call (callee + arguments), not by the read site inside
                 a0 = alts[0]
